@@ -97,6 +97,8 @@ type c01Version struct {
 	Deact  bool        `json:"deact"`
 	Assert [][2]string `json:"assertion"` // (verification method id, key name)
 	Auth   [][2]string `json:"-"`
+	CapInv [][2]string `json:"-"`    // capabilityInvocation only
+	KeyAgr [][2]string `json:"-"`    // keyAgreement only
 	Base   string      `json:"base"` // non-empty: the document declares this "@base" and writes its verification method ids relative ("#k")
 }
 
@@ -218,6 +220,12 @@ func (w *c01World) Resolve(id did.DID, md *resolver.ResolveMetadata) (*did.Docum
 	for _, p := range v.Auth {
 		doc.AddAuthenticationMethod(mk(p))
 	}
+	for _, p := range v.CapInv {
+		doc.AddCapabilityInvocation(mk(p))
+	}
+	for _, p := range v.KeyAgr {
+		doc.AddKeyAgreement(mk(p))
+	}
 	w.docs[ck] = doc
 	return doc, &resolver.DocumentMetadata{}, nil
 }
@@ -240,6 +248,7 @@ type c01HTTP struct {
 	n      *c01Nodes
 	mode   string            // "", "fold" (inject a case-folding variant of encodedList), "down" (HTTP 500)
 	zero   map[string]string // url -> encodedList captured before any revocation (mode fold)
+	static map[string][]byte // url -> body (mode static)
 	served int
 }
 
@@ -270,6 +279,12 @@ func (h *c01HTTP) Do(req *http.Request) (*http.Response, error) {
 	}
 	if h.mode == "down" {
 		return resp(500, []byte("down"))
+	}
+	if h.mode == "static" { // a cached / static copy is served, the issuer node is not asked
+		if b, ok := h.static[req.URL.String()]; ok {
+			return resp(200, b)
+		}
+		return resp(404, []byte("no copy"))
 	}
 	body, err := h.fetch(req.URL.String())
 	if err != nil {
@@ -1350,6 +1365,8 @@ func TestVerifC01(t *testing.T) {
 	statusScenario(t, o, rnd, "down-after-cache", false)
 	statusScenario(t, o, rnd, "down-cold", false)
 	statusScenario(t, o, rnd, "revoke-late", false)
+	statusScenario(t, o, rnd, "stale-expired", false)
+	statusScenario(t, o, rnd, "stale-future", false)
 	sb, _ := json.Marshal(o.stats)
 	os.WriteFile(path.Join(outDir, "stats.json"), sb, 0o644)
 }
@@ -1366,8 +1383,10 @@ func newC01Nodes(t *testing.T) *c01Nodes {
 	T := func(s int64) int64 { return (c01T0 + s) * 1000 }
 	// issuer I: k1 from the start, k2 added at +1000, k1 removed at +2000, k1's id re-bound to other key material at +3000; k3 only for authentication
 	i1, i2, i3, i1b := w.newKey(didI+"#k1"), w.newKey(didI+"#k2"), w.newKey(didI+"#k3"), w.newKey(didI+"#k1b")
+	i4, i5 := w.newKey(didI+"#k4"), w.newKey(didI+"#k5") // #k4: capabilityInvocation only, #k5: keyAgreement only
 	w.hist[didI] = []c01Version{
-		{From: T(-1000), Assert: [][2]string{{didI + "#k1", i1}}, Auth: [][2]string{{didI + "#k1", i1}, {didI + "#k3", i3}}},
+		{From: T(-1000), Assert: [][2]string{{didI + "#k1", i1}}, Auth: [][2]string{{didI + "#k1", i1}, {didI + "#k3", i3}},
+			CapInv: [][2]string{{didI + "#k4", i4}}, KeyAgr: [][2]string{{didI + "#k5", i5}}},
 		{From: T(1000), Assert: [][2]string{{didI + "#k1", i1}, {didI + "#k2", i2}}, Auth: [][2]string{{didI + "#k3", i3}}},
 		{From: T(2000), Assert: [][2]string{{didI + "#k2", i2}}, Auth: [][2]string{{didI + "#k3", i3}}},
 		{From: T(3000), Assert: [][2]string{{didI + "#k2", i2}, {didI + "#k1", i1b}}, Auth: [][2]string{{didI + "#k3", i3}}},
@@ -1389,7 +1408,7 @@ func newC01Nodes(t *testing.T) *c01Nodes {
 	}
 	w.hist[didE] = []c01Version{{From: T(-1000), Assert: [][2]string{{didE + "#k1", w.newKeyOn(didE+"#k1", elliptic.P384())}}}}
 	h1 := w.newKey(didH + "#k1")
-	w.hist[didH] = []c01Version{{From: T(-1000), Assert: [][2]string{{didH + "#k1", h1}}}}
+	w.hist[didH] = []c01Version{{From: T(-1000), Assert: [][2]string{{didH + "#k1", h1}}, Auth: [][2]string{{didH + "#k2", w.newKey(didH + "#k2")}}}} // #k2: authentication only
 	o1 := w.newKey(didO + "#k1")
 	// the other party's document also lists an assertion method whose id names the issuer's key id (bound to its own key)
 	w.hist[didO] = []c01Version{{From: T(-1000), Assert: [][2]string{{didO + "#k1", o1}, {didI + "#k1", o1}}}}
@@ -1406,7 +1425,7 @@ func newC01Nodes(t *testing.T) *c01Nodes {
 		t.Fatal(err)
 	}
 	vTrust := trust.NewConfig(path.Join(dir, "vtrust.yaml"))
-	httpStub := &c01HTTP{zero: map[string]string{}}
+	httpStub := &c01HTTP{zero: map[string]string{}, static: map[string][]byte{}}
 	fstore := &c01FaultStore{Store: vstore}
 	ver := verifier.NewVerifier(fstore, w, kr, w.ldm, vTrust, revocation.NewStatusList2021(vEng.GetSQLDatabase(), httpStub, ""))
 	// issuer node
@@ -2282,6 +2301,31 @@ func statusScenario(t *testing.T, o *c01Out, rnd *rand.Rand, mode string, mutate
 			list = append(list, sc{"status-multi[" + v.tag + "]:" + mode, mustJSON(signed), v.revoked})
 		}
 	}
+	if strings.HasPrefix(mode, "stale-") {
+		// the issuer node is gone; what is served is a static copy of its list — correctly signed by the issuer, the revoked bits set —
+		// that is itself past its expirationDate (stale-expired) or not yet valid (stale-future).  This verifier has no earlier copy.
+		for url := range truth {
+			body, err := n.http.fetch(url)
+			if err != nil {
+				t.Fatal(err)
+			}
+			var m map[string]any
+			_ = json.Unmarshal(body, &m)
+			delete(m, "proof")
+			from, until := time.Now().Add(-48*time.Hour), time.Now().Add(-24*time.Hour)
+			if mode == "stale-future" {
+				from, until = time.Now().Add(24*time.Hour), time.Now().Add(48*time.Hour)
+			}
+			m["issuanceDate"], m["expirationDate"] = from.UTC().Format(time.RFC3339), until.UTC().Format(time.RFC3339)
+			n.w.asOf = time.Now().UnixMilli()
+			signed, err := proof.NewLDProof(proof.ProofOptions{Created: time.Now().Add(-49 * time.Hour)}).Sign(n.w.ctx, m, signature.JSONWebSignature2020{ContextLoader: n.w.loader, Signer: n.w.ks}, didJ+"#k1")
+			if err != nil {
+				t.Fatal(err)
+			}
+			n.http.static[url] = []byte(mustJSON(signed))
+		}
+		n.http.mode = "static"
+	}
 	cold := mode == "down-cold"
 	if cold {
 		n.http.mode = "down"
@@ -2372,6 +2416,13 @@ func statusScenario(t *testing.T, o *c01Out, rnd *rand.Rand, mode string, mutate
 		for _, x := range nrs {
 			n.run(o, c01Call{kind: "vc", text: x.text, at: &okAt, allowUntrusted: false, checkSig: true, label: x.label + "@network-revoked", base: x.label, mut: "revoked"})
 			n.run(o, c01Call{kind: "vc", text: x.text, at: &okAt, allowUntrusted: true, checkSig: false, label: x.label + "@network-revoked-nosig", base: x.label, mut: "revoked"})
+		}
+	}
+	if strings.HasPrefix(mode, "stale-") {
+		verifyAll("@again") // the rejected-or-not list: the second verification answers like the first
+		for _, c := range list {
+			n.run(o, c01Call{kind: "vc", text: c.text, at: &okAt, allowUntrusted: true, checkSig: false, label: c.label + "@nosig", base: c.label,
+				mut: map[bool]string{true: "status-revoked", false: "flags"}[c.revoke], path: "nosig"})
 		}
 	}
 	if mode == "revoke-late" {
@@ -2490,6 +2541,9 @@ func (n *c01Nodes) mutate(o *c01Out, rnd *rand.Rand, b c01Base, at int64, thorou
 			n.mutateEmbedded(o, b, root, at)
 		}
 		n.resignLD(o, b, root, at)
+		if b.label == "org:ldp_vc" || b.label == "vp-ld[org-ld]" || b.label == "vp-ld[]" || b.label == "based:ldp_vc" {
+			n.resignPurposes(o, b, root, at)
+		}
 		return
 	}
 	hdr, pl, sig, ok := jwtParts(b.text)
@@ -2763,6 +2817,39 @@ func (n *c01Nodes) resignJWT(o *c01Out, b c01Base, hdr, pl map[string]any, at in
 		th3 := deepCopy(map[string]any(th)).(map[string]any)
 		delete(th3, "kid")
 		n.run(o, c01Call{kind: b.kind, text: jwtJoin(th3, tp, ts), at: &at, allowUntrusted: false, checkSig: true, label: b.label + "~resign-no-kid:" + kid, base: b.label, mut: "resign-no-kid", path: kid})
+	}
+}
+
+// resignPurposes: fresh proofs with every proofPurpose value, by keys that sit in exactly one verification relationship each.  Which
+// relationship the verifier consults is NOT the signer's choice: only assertionMethod keys sign credentials and presentations.
+func (n *c01Nodes) resignPurposes(o *c01Out, b c01Base, root map[string]any, at int64) {
+	doc := map[string]any{}
+	for k, v := range root {
+		if k != "proof" {
+			doc[k] = deepCopy(v)
+		}
+	}
+	kids := []string{didI + "#k1" /* assertion (+authentication) */, didI + "#k3" /* authentication */, didI + "#k4" /* capabilityInvocation */, didI + "#k5" /* keyAgreement */}
+	if b.kind == "vp" {
+		kids = []string{didH + "#k1" /* assertion */, didH + "#k2" /* authentication */}
+	}
+	if strings.HasPrefix(b.label, "based:") {
+		kids = []string{didB + "#k1" /* assertion */, didB + "#k2" /* authentication */}
+	}
+	for _, kid := range kids {
+		for _, purpose := range []string{"assertionMethod", "authentication", "capabilityInvocation", "capabilityDelegation", "keyAgreement", "anythingElse"} {
+			opts := proof.ProofOptions{Created: time.Unix(b.issued, 0).UTC(), ProofPurpose: purpose}
+			signed, err := proof.NewLDProof(opts).Sign(n.w.ctx, deepCopy(doc).(map[string]any), signature.JSONWebSignature2020{ContextLoader: n.w.loader, Signer: n.w.ks}, kid)
+			if err != nil {
+				n.w.t.Fatal(err)
+			}
+			n.run(o, c01Call{kind: b.kind, text: mustJSON(signed), at: &at, allowUntrusted: false, checkSig: true,
+				label: b.label + "~resign-purpose:" + purpose + ":" + kid, base: b.label, mut: "resign-purpose", path: purpose + ":" + kid})
+			if b.kind == "vc" {
+				n.run(o, c01Call{kind: "vc", text: mustJSON(signed), at: &at, allowUntrusted: true, checkSig: true, via: "sig",
+					label: b.label + "~resign-purpose-sig:" + purpose + ":" + kid, base: b.label, mut: "resign-purpose", path: purpose + ":" + kid})
+			}
+		}
 	}
 }
 
